@@ -72,7 +72,9 @@ leaves: if the returned SourceMap resolves the byte's position to `o`, then — 
 — `o` names a file `name` with its exact content `T` and the true line and column of a byte `q` of `T`, and either the byte
 is the surviving original byte `T[q + d]`, whose own true position is `o`'s line and `o`'s column plus `d` (so it is attributed to
 its own file and line, at a column not after its own, by a segment that starts on an original character), or it is a byte
-of the content of one of the replacements (attributed to where that replacement was spliced in) -/
+of the content of one of the replacements (attributed to where that replacement was spliced in).  The segment start `q` and the
+byte `q + d` lie in one potential token of `T` starting at `k0 ≤ q`: so a byte that *begins* a potential token (`q + d = k0`:
+a statement start) has `d = 0` — it resolves to exactly its own line and column -/
 theorem replace_origTree_map_bytes (cons : Text → Option Text) (inner : Src) (ho : inner.OrigTree) (hw : Src.WD cons true inner)
     (hasc : ∀ n T, cons n = some T → IsAscii T ∧ T.length < USIZE_MAX) (rs : List Repl)
     (hr : ∀ r ∈ rs, r.start ≤ r.stop) (hlen : (replaceSource inner.src rs).length + 1 < 2 ^ 32) (final : Bool)
@@ -82,7 +84,8 @@ theorem replace_origTree_map_bytes (cons : Text → Option Text) (inner : Src) (
       ∃ (name T : Text) (q d : Nat), sm.sources[o.src]? = some name ∧ sm.sourcesContent[o.src]? = some T ∧ q < T.length
         ∧ adv startPos (T.take q) = ⟨o.line, o.col⟩
         ∧ ((q + d < T.length ∧ (replaceSource inner.src rs)[i]? = T[q + d]?
-              ∧ adv startPos (T.take (q + d)) = ⟨o.line, o.col + d⟩)
+              ∧ adv startPos (T.take (q + d)) = ⟨o.line, o.col + d⟩
+              ∧ ∃ tok k0 l0 c0, TokPos T tok l0 c0 k0 ∧ k0 ≤ q ∧ q + d < k0 + tok.length)
             ∨ (∃ r ∈ sortRepls rs, ∃ cl ∈ splitLines r.content, d < cl.length ∧ (replaceSource inner.src rs)[i]? = cl[d]?)) := by
   intro i o hget
   have hmode : (Src.replace inner rs).ModeHyp := ⟨Src.origTree_mode inner ho, hr, hlen⟩
@@ -134,12 +137,12 @@ theorem replace_origTree_map_bytes (cons : Text → Option Text) (inner : Src) (
         simp only [Option.map_some, Option.some.injEq, Prod.mk.injEq] at hfile
         exact ⟨by rw [hfile.1], hfile.2.symm⟩
     refine ⟨name, T, q, d, hS.1, hS.2, y3, y4, ?_⟩
-    rcases y5 with ⟨q', hq1, hq2, hq3, hq4⟩ | ⟨r, hr1, cl, hcl, hq3⟩
+    rcases y5 with ⟨q', hq1, hq2, hq3, hq4, tok, k0, l0, c0, hq5, hq6, hq7⟩ | ⟨r, hr1, cl, hcl, hq3⟩
     · simp only [Option.some.injEq] at hq3
       subst hq3
       have hlen' : (bsub T q q').length = q' - q := by unfold bsub; simp only [List.length_take, List.length_drop]; omega
       rw [hlen'] at hd
-      refine Or.inl ⟨by omega, ?_, hq4 d hd⟩
+      refine Or.inl ⟨by omega, ?_, hq4 d hd, tok, k0, l0, c0, hq5, hq6, by omega⟩
       rw [hbyte]
       exact (bsub_get T q q' d hq2 hd).1
     · simp only [Option.some.injEq] at hq3
